@@ -125,6 +125,22 @@ def run(ctx, repo, tier):
             if (isinstance(base, ast.Name) and base.id in sel_names) or (isinstance(base, ast.Subscript) and "additional_points" in src(base.value)
                                                                            and any(isinstance(c, ast.Compare) for c in ast.walk(base.slice))):
                 thinned = n
+    # ... and ONLY those: a re-definition of the per-cell selection by anything else than the assignment mask hands a cell points that
+    # belong to its neighbours (their hulls overlap, volumes are inflated)
+    foreign = None
+    for n in ast.walk(apc.node):
+        if isinstance(n, ast.Assign) and len(n.targets) == 1 and isinstance(n.targets[0], ast.Name) and n.targets[0].id in sel_names:
+            v_ = n.value
+            is_mask = isinstance(v_, ast.Subscript) and "additional_points" in src(v_.value) and any(isinstance(c, ast.Compare) and
+                                                                                                   isinstance(c.ops[0], ast.Eq) for c in ast.walk(v_.slice))
+            derived = any(isinstance(x, ast.Name) and x.id in sel_names for x in ast.walk(v_))
+            if not is_mask and not derived:
+                foreign = n
+    if foreign is not None:
+        ctx.instance("SELECT")
+        ctx.violate("SELECT", "C15.helpers.own", "on some path a cell receives helper points that were NOT assigned to it (selected by another "
+                    "criterion than `assignment == i`): points of neighbouring cells enter its hull", apc.where, norm_stmt(foreign)[:160],
+                    witness="re-definition of the per-cell selection without the assignment mask")
     ctx.instance("SELECT")
     if thinned is not None:
         ctx.violate("SELECT", "C15.helpers.all", "only a slice of the helper points assigned to a cell reaches its hull: the hull (hence the volume "
